@@ -90,14 +90,16 @@ def run(R, ctx):
                     where=b.loc(bb2))
 
     # R12.3 who may call the gate, and which entries reach it without passing through a locked region
-    direct = sorted({p for p, es in cg.ext.items() for (n, bb, t) in es if n == 'log::set_max_level'})
-    allowed_direct = {'logger_handle::WritersHandle::reconfigure', 'logger_handle::WritersHandle::set_new_spec'}
+    EXEMPT = {'logger::Logger::build'}  # handle not yet shared: created in build and only returned
+    direct = sorted({root_fn(p) for p, es in cg.ext.items() for (n, bb, t) in es if n == 'log::set_max_level'})
     for p in direct:
-        R.check('R12.3', f"direct-caller:{p}", p in allowed_direct,
-                f"{p} is an expected direct caller of log::set_max_level",
+        # either the function that stores the specification under the write lock (R12.1 decides the lock scope there), or a
+        # private helper of the exempt start-up entry (reached from nowhere else)
+        okp = p in wpaths or only_called_from(cg, p, EXEMPT)
+        R.check('R12.3', f"direct-caller:{p}", okp,
+                f"{p} sets the gate " + ("where the specification is stored" if p in wpaths else "only on behalf of Logger::build"),
                 f"unexpected direct caller of log::set_max_level: {p} (the gate must only be set where the specification is stored)",
                 where=f.bodies[p].loc())
-    EXEMPT = {'logger::Logger::build'}  # handle not yet shared: created in build and only returned
     for e in pub_api_bodies(f):
         if e.path in wpaths:
             continue
